@@ -9,8 +9,8 @@ namespace Kopf.C20
 /-- label groups (only to split the preservation proofs over several files) -/
 def Label.grp : Label → Nat
   | .rootEnd _ _ => 1
-  | .rootStopping _ _ | .subStopping _ _ | .subEnd _ _ | .subSpawn _ | .withdraw _ | .subGone _ | .subCancel _ => 2
-  | .workerStart _ | .workerEnd _ _ | .daemonSpawn | .daemonExit _ | .waiterEnd | .orphan | .orphanEnd
+  | .rootStopping _ _ | .subStopping _ _ | .subEnd _ _ | .subSpawn _ | .withdraw _ _ | .subGone _ | .subCancel _ => 2
+  | .workerStart _ | .workerEnd _ _ | .daemonSpawn _ | .daemonExit _ | .waiterEnd | .orphan | .orphanEnd
   | .act _ | .enter _ | .coreEnter | .coreEnd _ => 3
   | _ => 4
 
@@ -208,8 +208,16 @@ structure InvE (cfg : Cfg) (s : State) : Prop where
   fixedEdge : cfg.fixed = true → ∀ i, i < s.nSubs → s.st (.sub i) = .failed → s.gone i = false →
     s.st (.root .orchestrator) = .running → s.creq (.root .orchestrator) = true
   dmPresent : ∀ d, d < s.nDaemons → s.dm d ≠ .absent
+  werrNotGone : ∀ i, s.werr (.sub i) = true → s.gone i = false
+  coreWatcherSt : s.st (.root .coreWatcher) = .running ∨ (s.st (.root .coreWatcher)).ended = true
+  coreWatcherFailed : s.st (.root .coreWatcher) = .failed → cfg.coreWatched = true ∧ s.core = .failed
+  killerDone : (s.st (.root .daemonKiller)).ended = true → s.st (.root .daemonKiller) ≠ .failed →
+    ∀ d, d < s.nDaemons → s.stopReq d = true → s.coop d = true → s.dm d ≠ .running
+  stopReqRange : ∀ d, s.nDaemons ≤ d → s.stopReq d = false
+  coreStopReq : ∀ p, s.sc = .coreStopping p → s.core.live = true → s.coreCreq = true
+  scOverCore : ∀ p, s.sc = .over p → s.core.live = false ∨ p ≠ .none
 
 theorem InvE.init (cfg : Cfg) : InvE cfg init := by
-  constructor <;> simp [Kopf.C20.init, initSt]
+  constructor <;> simp [Kopf.C20.init, initSt, Root.guarded, Root.kind]
 
 end Kopf.C20
